@@ -232,10 +232,16 @@ class ConcurrentExecutor(ABC, Generic[CallableType, ResultType]):
                 return
             try:
                 submit_task(executable_with_state)
-            except RuntimeError:
-                # execute() has returned and shut the pool down while the refresh above was in
-                # flight (the operation was decided in the meantime): nothing is left to resume
-                logger.debug("Resubmission after the executor was shut down is dropped")
+            except RuntimeError as e:
+                if self._completion_event.is_set():
+                    # execute() is returning and has shut the pool down while the refresh above was
+                    # in flight (the operation was decided in the meantime): nothing left to resume
+                    logger.debug("Resubmission after the executor was shut down is dropped")
+                else:
+                    # the pool is alive but cannot take the branch (e.g. no new thread can be
+                    # started): nobody would ever run it, so end the operation with that error
+                    self._fatal_exception = e
+                    self._completion_event.set()
 
         thread_executor = ThreadPoolExecutor(max_workers=max_workers)
         try:
